@@ -423,12 +423,44 @@ fn rand_decimal(rng: &mut Rng) -> Decimal {
     Decimal::from_parts(mant as u32, (mant >> 32) as u32, (mant >> 64) as u32, neg, scale)
 }
 
+/// `--probe 1`: print a handful of concrete calls (used to document findings); no evidence is written.
+fn probe() -> i32 {
+    use rust_decimal::Decimal as D;
+    let two96: u128 = 1u128 << 96;
+    println!("unsigned_fixed_to_decimal(2^96, 1)  = {:?}", guard(|| sdk::unsigned_fixed_to_decimal(two96, 1)));
+    println!("unsigned_fixed_to_decimal(2^96-1, 1) = {:?}", guard(|| sdk::unsigned_fixed_to_decimal(two96 - 1, 1)));
+    println!("unsigned_value_to_decimal(2^96)     = {:?}", guard(|| sdk::unsigned_value_to_decimal(two96)));
+    println!("signed_value_to_decimal(-(2^96))    = {:?}", guard(|| sdk::signed_value_to_decimal(-(two96 as i128))));
+    println!("unsigned_fixed_to_decimal(2^96, 29) = {:?}", guard(|| sdk::unsigned_fixed_to_decimal(two96, 29)));
+    println!("unsigned_fixed_to_decimal(2^96, 30) = {:?}", guard(|| sdk::unsigned_fixed_to_decimal(two96, 30)));
+    println!("signed_fixed_to_decimal(-(2^96), 30) = {:?}", guard(|| sdk::signed_fixed_to_decimal(-(two96 as i128), 30)));
+    println!("unsigned_amount_to_decimal(19, 29)  = {:?}", guard(|| sdk::unsigned_amount_to_decimal(19, 29)));
+    println!("signed_amount_to_decimal(-19, 29)   = {:?}", guard(|| sdk::signed_amount_to_decimal(-19, 29)));
+    println!("decimal_to_amount(1.5, 0)           = {:?}", guard(|| sdk::decimal_to_amount(D::new(15, 1), 0).map_err(|e| e.to_string())));
+    println!("decimal_to_amount(1.2345678, 6)     = {:?}", guard(|| sdk::decimal_to_amount(D::new(12345678, 7), 6).map_err(|e| e.to_string())));
+    println!("decimal_to_signed_value(-0.5, 0)    = {:?}", guard(|| sdk::decimal_to_signed_value(D::new(-5, 1), 0).map_err(|e| e.to_string())));
+    for d in [29u8, 30, 34, 38, 39, 40, 45, 50, 56, 57, 60, 66] {
+        println!("decimal_to_signed_value(0.1, {d})     = {:?}", guard(|| sdk::decimal_to_signed_value(D::new(1, 1), d).map_err(|e| e.to_string())).map(|r| r.map(|x| x.to_string())));
+    }
+    println!("decimal_to_signed_value(0.000001, 66) = {:?}", guard(|| sdk::decimal_to_signed_value(D::new(1, 6), 66).map_err(|e| e.to_string())));
+    let big: u128 = 280397654871070051581400674000000000000;
+    let f = guard(|| sdk::unsigned_fixed_to_decimal(big, 11));
+    println!("unsigned_fixed_to_decimal({big}, 11) = {f:?}");
+    if let Ok(Some(v)) = f {
+        println!("decimal_to_value(that, 11) = {:?}", guard(|| sdk::decimal_to_value(v, 11).map_err(|e| e.to_string())));
+    }
+    0
+}
+
 pub fn run(args: &Args) -> i32 {
+    if args.extra.contains_key("probe") {
+        return probe();
+    }
     let mut mon = Monitor::new(
         args,
         "cases = (function, integer, decimals): shard 0 enumerates boundary integers (0, 10^k±1, 2^k±1, 2^96-1±1, type limits) x decimals {0..=48,56..,255}; other shards draw boundary-biased / log-uniform / uniform integers and decimals (0..=40 mostly, up to 255) plus random Decimals (96-bit mantissa, scale 0..=28) for the back conversions. Non-trivial = conversion returned a non-zero value (exact, or one of the pinned lossy classes); distinct = hash(function, decimals, bit length or scale, outcome class).",
     );
-    let per_shard = args.scale(150_000, 4_000_000);
+    let per_shard = crate::util::scaled(args, 750_000, 11_000_000);
     let shards = 64u64;
     vcommon::monitor::run_shards(&mut mon, args.threads, shards, |shard, m| {
         if shard == 0 {
@@ -499,15 +531,15 @@ pub fn run(args: &Args) -> i32 {
             }
         }
     });
-    mon.require("roundtrip_ok", 10_000);
-    mon.require("unsigned_fixed_to_decimal:exact", 1_000);
-    mon.require("signed_fixed_to_decimal:exact", 1_000);
-    mon.require("unsigned_amount_to_decimal:exact", 1_000);
-    mon.require("signed_amount_to_decimal:exact", 1_000);
-    mon.require("decimal_to_amount:exact", 1_000);
-    mon.require("decimal_to_value:exact", 1_000);
-    mon.require("decimal_to_signed_value:exact", 1_000);
-    mon.require("refused_unrepresentable", 100);
+    crate::util::req(args, &mut mon, "roundtrip_ok", 10_000);
+    crate::util::req(args, &mut mon, "unsigned_fixed_to_decimal:exact", 1_000);
+    crate::util::req(args, &mut mon, "signed_fixed_to_decimal:exact", 1_000);
+    crate::util::req(args, &mut mon, "unsigned_amount_to_decimal:exact", 1_000);
+    crate::util::req(args, &mut mon, "signed_amount_to_decimal:exact", 1_000);
+    crate::util::req(args, &mut mon, "decimal_to_amount:exact", 1_000);
+    crate::util::req(args, &mut mon, "decimal_to_value:exact", 1_000);
+    crate::util::req(args, &mut mon, "decimal_to_signed_value:exact", 1_000);
+    crate::util::req(args, &mut mon, "refused_unrepresentable", 100);
     mon.assume("'decimals supported' is read as decimals <= 28 (rust_decimal's maximum scale); a None/Err outside that domain, or for a mantissa above 2^96-1, is 'reports failure'");
     mon.assume("a value is 'representable' iff some (96-bit mantissa, scale<=28) pair equals it exactly; returning a different value instead of an error is the violation (classes lossy_above_2^96, lossy_decimals_above_28, rounds_excess_fraction keep their exact residual bound)");
     mon.finish()
